@@ -53,6 +53,9 @@ def stack_gen(UO, UB, nstacks, seed):
                 # the same wrapping function in every layer: only possible without own named parameters
                 layers = [[p for p in layers[0] if p['k'] in ('var', 'vkw')]] * depth
                 kinds, fls, reuse = [kinds[0]] * depth, [{'n': 0, 'names': []}] * depth, True
+            if k % 13 == 5 and depth >= 2 and not reuse and any(p['k'] not in ('var', 'vkw') for p in layers[0]):
+                # two DIFFERENT wrapping functions that call their own parameters alike (two decorators that both take timeout=)
+                layers[1] = list(layers[0])
             if k % nshards == shard:
                 yield wrapstack.stack_event('stack/%d' % k, layers, base, kinds, fls, placement, reuse=reuse, sigattr=(k % 7 == 3), stepwise=(k % 5 in (1, 2)))
     return gen
@@ -80,6 +83,12 @@ def comb_gen(U, ncomb, seed):
 
 
 def classify(tid, clause, case):
+    # known finding: two layers of a stack take an own parameter of the same name (the outer one shadows the inner one): forwards raises on the
+    # duplicate, the stack falls back on the outermost wrapper's raw (*args, **kwargs) signature, which accepts calls the wrapped function rejects
+    if clause == 'C13_AcceptedCallRaisesTypeError' and case and 'layers' in case:
+        own = [{p['n'] for p in o if p['k'] not in ('var', 'vkw')} for o in case['layers']]
+        if any(own[i] & own[j] for i in range(len(own)) for j in range(i + 1, len(own))):
+            return 'stack-layers-share-an-own-parameter-name'
     return clause
 
 
